@@ -37,7 +37,7 @@ def run(ck):
     thorough = ck.tier == "thorough"
     ps = M.sysctl_ps()
     tree = S.scenario_tree()
-    base = [{"id": i + 1, "tree": tree, "op": op} for i, op in enumerate(LOOKUPS)]
+    base = S.flag_variants([{"id": i + 1, "tree": tree, "op": op} for i, op in enumerate(LOOKUPS)])
     stats = {"runs": 0, "attacks_applied": 0, "ok": 0, "err": 0, "violation_kind": {}, "boundaries": 0, "t1_ok": 0, "t1_bad": 0, "by_action": {}}
     nontrivial = set()
     samples = []
